@@ -7,6 +7,13 @@ import OnlVerif.Lemmas.CondExamples
 
 Model: `Condition.__init__`, `_check`, `_build_value`, `_populate_value`, `_remove_check_callbacks`,
 `all_events`, `any_events` in `OnlVerif/Kernel/Ops.lean`.
+
+First the *local* theorems (one call of `_check` / `_build_value` / `__init__` at a time).  The delimited block at the end
+holds the *global* ones — for every program and every state reachable by `step`: the counting invariant
+(`cond_counting_invariant`, `…_midstep`), the trigger instant (`cond_triggers_exactly_when_first_met`,
+`cond_constructor_triggers_exactly_when_met`, `cond_triggers_in_step_of_operand`, `cond_outcome_frozen`,
+`late_failure_not_defused`), outcome and value (`cond_value_when_processed`, `cond_value_is_processed_leaves`,
+`detached_never_triggers`) and nesting (`nested_depth2`); helper lemmas in `Lemmas/Cond*.lean`.
 -/
 
 namespace C05
@@ -207,6 +214,30 @@ theorem cond_triggers_exactly_when_first_met (s0 s : KState ℚ σ) (h0 : Once.I
     obtain ⟨h1, h2, h3, _, _⟩ := cond_counting_invariant body fuel s0 s h0 c0 hsafe hr c all ops hk hu ha
     rw [h1] at h3
     exact ⟨h3, h2⟩
+
+/-- **2, the constructor**: `Condition(all, ops)` over existing events returns with the new condition `c` triggered
+exactly when its predicate already holds over the operands processed at construction (or one of them has failed: then
+with that exception, the operand defused); otherwise `_count` is the number of processed operand positions, and every
+unprocessed operand has got one `_check` of `c` appended per position, in operand order. -/
+theorem cond_constructor_triggers_exactly_when_met (s : KState ℚ σ) (all : Bool) (ops : List EvId)
+    (hex : ∀ e ∈ ops, e < s.events.size) :
+    (((mkCond s all ops).1.ev s.events.size).out = none →
+      ((mkCond s all ops).1.ev s.events.size).count = ops.countP (fun e => s.processed e) ∧
+      (∀ e ∈ ops, s.processed e = true → ∀ z, (s.ev e).out ≠ some (.fail z)) ∧
+      evaluate all ops.length (ops.countP (fun e => s.processed e)) = false) ∧
+    (∀ v, ((mkCond s all ops).1.ev s.events.size).out = some (.ok v) →
+      evaluate all ops.length (ops.countP (fun e => s.processed e)) = true) ∧
+    (∀ z, ((mkCond s all ops).1.ev s.events.size).out = some (.fail z) →
+      ∃ e ∈ ops, s.processed e = true ∧ (s.ev e).out = some (.fail z) ∧ ((mkCond s all ops).1.ev e).defused = true) ∧
+    (∀ e, e ≠ s.events.size → ((mkCond s all ops).1.ev e).cbs =
+      (s.ev e).cbs.map (· ++ List.replicate (ops.count e) (Cb.check s.events.size))) ∧
+    (∀ e, e ≠ s.events.size → ((mkCond s all ops).1.ev e).out = (s.ev e).out) := by
+  have h := Cond.mkCond_spec s all ops hex
+  refine ⟨?_, h.c_ok, h.c_fail, h.cbs_old, h.out_old⟩
+  intro hn
+  obtain ⟨h1, h2, h3⟩ := h.c_pending hn
+  rw [h1] at h3
+  exact ⟨h1, h2, h3⟩
 
 /-- **2, as a transition**: if a condition that exists, is pending and attached before a step is triggered after it,
 then the event processed in that step is one of its operands — a condition is triggered only by the processing of an
@@ -467,6 +498,11 @@ example : Once.Inv0 false Cond.start ∧ Cond.Inv0 Cond.start ∧ Cond.SafeRun C
 /-- …and a program that triggers its condition by hand is outside the domain -/
 example : ¬ Cond.DomStep Cond.handBody 5 Cond.start := Cond.hand_unsafe
 
+/-- outside the domain the statement is false, in the model as in the library: `handBody` calls `succeed()` on its pending
+`all_of([2])` (condition `3`); after that step the condition is triggered although its operand is not processed -/
+example : Cond.outIs (Cond.nth Cond.handBody Cond.start 1) 3 (some (.ok .none)) = true ∧
+    (Cond.nth Cond.handBody Cond.start 1).processed 2 = false ∧ evaluate true 1 0 = false := by decide +kernel
+
 /-- **`all_of` over two timeouts due at the same instant** (`2 & 3`, condition `4`): after the first timeout the condition
 is pending with `_count = 1` and its `_check` is still subscribed to the second; it is triggered in exactly the step that
 processes the second timeout (`_count = 2`); when it is processed its value holds both, in operand order, and no `_check`
@@ -555,5 +591,7 @@ example : populate 7 (Cond.nth Cond.nestBody Cond.start 4) 6 = [2, 4] ∧
   refine ⟨?_, (hdet (by decide +kernel)).2 (by decide +kernel)⟩
   rw [hval]
   decide +kernel
+
+/-! ===================================== end of the global block ===================================== -/
 
 end C05
